@@ -207,3 +207,8 @@ MUTANTS = {
         ('fallocate-mode-not-checked', 'src/passthrough/sync_io.rs', "                length,\n                mode as i32,\n            )?;", "                length,\n                0,\n            )?;"),
     ],
 }
+
+# overlay units (C10 / C11): the mutants proposed and tried by the sub-agent that built them; the two whose edit site was rewritten by
+# the fix c4f2dab are reported as not-applicable by the sweep
+from vx import ovl_mutants_proposed as _OVL
+MUTANTS.update({k: list(v) for k, v in _OVL.MUTANTS.items()})
